@@ -91,21 +91,30 @@ def placement_to_chops(placement):
     return chops
 
 
+# chains in which a count has to travel three hops, a 4-fold shared edge, the livelock shape
+FOUR_CELL_SPECIALS = [
+    [(0, 0, 0), (0, 2, 0), (0, 1, 0), (0, 1, 1)],
+    [(0, 0, 0), (1, 0, 0), (0, 1, 0), (1, 1, 0)],
+    [(0, 0, 0), (1, 0, 0), (2, 0, 0), (2, 1, 0)],
+    [(0, 0, 0), (1, 0, 0), (2, 0, 0), (3, 0, 0)],
+    [(0, 0, 0), (1, 0, 0), (1, 1, 0), (2, 1, 0)],
+    [(0, 0, 0), (1, 0, 0), (1, 1, 0), (1, 1, 1)],
+    [(0, 0, 0), (1, 0, 0), (2, 0, 0), (1, 1, 0)],
+]
+
+
 def assemblies(tier):
     out = []
     if tier == "quick":
         for sub in sub_assemblies(lattice_cells(2, 2, 2), 3, 1):
             out.append(sub)
         # 4-cell specials: row of three plus one on top of the middle (livelock shape), 2x2 square, L, T
-        out += [
-            [(0, 0, 0), (0, 2, 0), (0, 1, 0), (0, 1, 1)],
-            [(0, 0, 0), (1, 0, 0), (0, 1, 0), (1, 1, 0)],
-            [(0, 0, 0), (1, 0, 0), (2, 0, 0), (2, 1, 0)],
-        ]
+        out += FOUR_CELL_SPECIALS
     else:
         for sub in sub_assemblies(lattice_cells(2, 3, 2), 4, 1):
             out.append(sub)
-        out += [[(0, 0, 0), (0, 2, 0), (0, 1, 0), (0, 1, 1)], [(0, 0, 0), (1, 0, 0), (2, 0, 0), (2, 1, 0)]]
+        out += [s for s in FOUR_CELL_SPECIALS if s not in out]
+        out.append([(0, 0, 0), (1, 0, 0), (2, 0, 0), (3, 0, 0), (4, 0, 0)])
     return [[list(c) for c in a] for a in out]
 
 
@@ -117,7 +126,7 @@ def cases(tier, seed):
         base = default_placement(cells_t)
         placements = [("default", base)]
         connected = is_vertex_connected(cells_t)
-        if n >= 2:
+        if 2 <= n <= 4:
             placements += list(placement_deviations(base, 1))
             if tier == "thorough" and n <= 3:
                 placements += list(placement_deviations(base, 2))
